@@ -1,7 +1,7 @@
 // Harness for frg::basic_string_view / frg::basic_string / string hashes (C15, C16 string part,
 // C20 to_number part).  Runs op scripts on the REAL code from /repo/include, prints canonical lines
 // (compared with the extracted Gallina model, comp/str/driver.ml) and evaluates the property with
-// std::string / std::string_view references (oracle, independent of the model).
+// std::basic_string<CharT> / std::basic_string_view<CharT> references (oracle, independent of the model).
 // Every source buffer is an exact-size heap block: the ASan redzone starts right after its last byte,
 // so a read one byte past a view is a sanitizer report (attributed to the running case by vlib).
 #include <algorithm>
@@ -10,6 +10,8 @@
 #include <optional>
 #include <string>
 #include <string_view>
+#include <stdexcept>
+#include <type_traits>
 #include <sanitizer/asan_interface.h>
 #include "vharness.hpp"
 #include <frg/string.hpp>
@@ -36,38 +38,50 @@ struct LogAlloc {
 };
 static void flush_evs() { for(auto &e : g_evs) printf("%s\n", e.c_str()); g_evs.clear(); }
 
-using FS = frg::basic_string<char, LogAlloc>;
-using FV = frg::string_view;
+// Everything below is generic in the character type: the same scripts run on char, char16_t, char32_t and wchar_t
+// (first script line "char 1|2|4|w"; buffer contents are lists of ELEMENTS, 2*sizeof(CharT) hex digits each).
+static bool g_assert_expected = false;
+template<typename CharT>
+struct H {
+using FS = frg::basic_string<CharT, LogAlloc>;
+using FV = frg::basic_string_view<CharT>;
+using SS = std::basic_string<CharT>;
+using SV = std::basic_string_view<CharT>;
+static constexpr size_t W = sizeof(CharT);
 
-struct Buf { char *p; size_t n; std::string bytes; };
-static std::vector<Buf> g_bufs;
+struct Buf { CharT *p; size_t n; SS bytes; };
+static inline std::vector<Buf> g_bufs;
 static void drop_bufs() {
 	for(auto &b : g_bufs) { if(!b.n) ASAN_UNPOISON_MEMORY_REGION(b.p, 1); ::free(b.p); }
 	g_bufs.clear();
 }
-static std::string unhex(const std::string &h) {
-	std::string r;
+static bool same(const CharT *a, const CharT *b, size_t n) { for(size_t i = 0; i < n; i++) if(a[i] != b[i]) return false; return true; }
+static SS unhex(const std::string &h) {
+	SS r;
 	if(h == "-") return r;
-	for(size_t i = 0; i + 1 < h.size(); i += 2) r.push_back((char)strtoul(h.substr(i, 2).c_str(), nullptr, 16));
+	for(size_t i = 0; i + 2 * W <= h.size(); i += 2 * W) r.push_back((CharT)strtoull(h.substr(i, 2 * W).c_str(), nullptr, 16));
 	return r;
 }
-static std::string hex(const char *p, size_t n) {
+static std::string hex(const CharT *p, size_t n) {
 	if(!n) return "-";
 	static const char *d = "0123456789abcdef";
 	std::string r;
-	for(size_t i = 0; i < n; i++) { r.push_back(d[(unsigned char)p[i] >> 4]); r.push_back(d[(unsigned char)p[i] & 15]); }
+	for(size_t i = 0; i < n; i++) {
+		unsigned long long v = (unsigned long long)(std::make_unsigned_t<CharT>)p[i];
+		for(int k = 2 * (int)W - 1; k >= 0; k--) r.push_back(d[(v >> (4 * k)) & 15]);
+	}
 	return r;
 }
 
 struct World {
 	std::vector<std::unique_ptr<FS>> strs;
-	std::vector<std::optional<std::string>> ref;
+	std::vector<std::optional<SS>> ref;
 	std::vector<FV> views;
-	std::vector<std::string> vref;
-	std::map<std::string, unsigned> hashes;
+	std::vector<SS> vref;
+	std::map<SS, unsigned> hashes;
 };
 
-struct VE { FV v; std::string ref; };
+struct VE { FV v; SS ref; };
 
 static std::vector<std::string> splitc(const std::string &s) {
 	std::vector<std::string> r; std::string cur;
@@ -77,15 +91,15 @@ static std::vector<std::string> splitc(const std::string &s) {
 
 static VE eval(World &w, const std::string &tok) {
 	auto t = splitc(tok);
-	if(t[0] == "N") return VE{FV{}, ""};
+	if(t[0] == "N") return VE{FV{}, SS()};
 	if(t[0] == "P") {
 		Buf &b = g_bufs.at(vh::u64(t[1])); size_t off = vh::u64(t[2]), len = vh::u64(t[3]);
-		return VE{FV{b.p + off, len}, (off <= b.bytes.size() ? b.bytes.substr(off, len) : std::string())};
+		return VE{FV{b.p + off, len}, (off <= b.bytes.size() ? b.bytes.substr(off, len) : SS())};
 	}
 	if(t[0] == "C") {
 		Buf &b = g_bufs.at(vh::u64(t[1])); size_t off = vh::u64(t[2]);
 		FV v{b.p + off};
-		std::string r = b.bytes.substr(off); r = r.substr(0, r.find('\0'));
+		SS r = b.bytes.substr(off); r = r.substr(0, r.find(CharT(0)));
 		if(v.size() != r.size()) vh::oracle("refstr", "view(const char*) has size %zu, reference strlen %zu", v.size(), r.size());
 		return VE{v, r};
 	}
@@ -106,24 +120,24 @@ static void print_str(World &w, size_t k) {
 // string k must denote its reference text, keep the terminator, and own a buffer iff data() != nullptr
 static void check_str(World &w, size_t k, const char *what, size_t junk_from = (size_t)-1) {
 	FS &s = *w.strs[k];
-	std::string &r = *w.ref[k];
+	SS &r = *w.ref[k];
 	if(s.size() != r.size()) { vh::oracle("refstr", "%s: size() = %zu, reference %zu", what, s.size(), r.size()); return; }
 	if(!s.data()) { if(s.size()) vh::oracle("refstr", "%s: data() == nullptr with size() = %zu", what, s.size()); return; }
 	size_t cmp = junk_from < r.size() ? junk_from : r.size();
-	if(memcmp(s.data(), r.data(), cmp)) vh::oracle("refstr", "%s: contents differ from the reference (size %zu)", what, r.size());
+	if(!same(s.data(), r.data(), cmp)) vh::oracle("refstr", "%s: contents differ from the reference (size %zu)", what, r.size());
 	if(s.data()[s.size()] != 0) vh::oracle("terminator", "%s: data()[size()] = %d, not 0", what, (int)s.data()[s.size()]);
 	if(junk_from != (size_t)-1) r.assign(s.data(), s.size());   // the grown part is unspecified: adopt it
 }
 
-static int ref_compare(const std::string &a, const std::string &b) {
+static int ref_compare(const SS &a, const SS &b) {
 	if(a.size() != b.size()) return a.size() < b.size() ? -1 : 1;
 	for(size_t i = 0; i < a.size(); i++) if(a[i] != b[i]) return a[i] < b[i] ? -1 : 1;
 	return 0;
 }
 
 template<typename T>
-static void do_num(FV v, const std::string &ref) {
-	auto r = v.to_number<T>();
+static void do_num(FV v, const SS &ref) {
+	auto r = v.template to_number<T>();
 	if(r) printf("v %lld\n", (long long)*r); else printf("none\n");
 	bool digits = true; unsigned __int128 val = 0; bool huge = false;
 	for(char c : ref) {
@@ -138,9 +152,8 @@ static void do_num(FV v, const std::string &ref) {
 		else if((unsigned __int128)*r != val || *r < 0) vh::oracle("tonumber", "to_number returned a wrong value");
 	}
 }
-template<>
-void do_num<uint64_t>(FV v, const std::string &ref) {
-	auto r = v.to_number<uint64_t>();
+static void do_num_u64(FV v, const SS &ref) {
+	auto r = v.template to_number<uint64_t>();
 	if(r) printf("v %llu\n", (unsigned long long)*r); else printf("none\n");
 	bool digits = true; unsigned __int128 val = 0; bool huge = false;
 	for(char c : ref) {
@@ -155,24 +168,23 @@ void do_num<uint64_t>(FV v, const std::string &ref) {
 	}
 }
 
-static void check_hash(World &w, const std::string &text, unsigned h) {
+static void check_hash(World &w, const SS &text, unsigned h) {
 	auto it = w.hashes.find(text);
 	if(it == w.hashes.end()) w.hashes[text] = h;
 	else if(it->second != h) vh::oracle("hash", "equal texts hash differently (%u vs %u)", it->second, h);
 }
 
-static void new_str(World &w, FS *s, std::string r, const char *what) {
+static void new_str(World &w, FS *s, SS r, const char *what) {
 	w.strs.emplace_back(s); w.ref.emplace_back(std::move(r));
 	printf("u\n");
 	print_str(w, w.strs.size() - 1);
 	check_str(w, w.strs.size() - 1, what);
 }
 
-static bool g_assert_expected = false;
-static void run_lines(const vh::Lines &ls);
 static void body(const vh::Lines &ls) {
 	g_assert_expected = false;
 	try { run_lines(ls); }
+	catch(std::out_of_range &) { printf("bad-script\n"); }      // malformed script (index without object): not a finding
 	catch(vh::AssertStop &a) {
 		// the only documented stop: sub_string with a request outside the view
 		if(!g_assert_expected) vh::oracle("unexpected-assert", "assertion hook reached by an operation whose preconditions hold: %s", a.where.c_str());
@@ -187,10 +199,10 @@ static void run_lines(const vh::Lines &ls) {
 			auto t = vh::split(ls[li]);
 			const std::string &o = t[0];
 			if(o == "buf") {
-				std::string bytes = unhex(t[1]);
+				SS bytes = unhex(t[1]);
 				Buf b; b.n = bytes.size(); b.bytes = bytes;
-				b.p = (char *)::malloc(b.n ? b.n : 1);
-				if(b.n) memcpy(b.p, bytes.data(), b.n); else ASAN_POISON_MEMORY_REGION(b.p, 1);
+				b.p = (CharT *)::malloc(b.n ? b.n * W : 1);
+				if(b.n) memcpy(b.p, bytes.data(), b.n * W); else ASAN_POISON_MEMORY_REGION(b.p, 1);
 				++g_id;
 				g_bufs.push_back(b);
 				printf("u\n");
@@ -200,22 +212,22 @@ static void run_lines(const vh::Lines &ls) {
 				printf("b %d\n", (int)r);
 				if(r != (a.ref == b.ref)) vh::oracle("refstr", "operator== gives %d, reference %d", (int)r, (int)(a.ref == b.ref));
 			} else if(o == "ff") {
-				VE a = eval(w, t[1]); char c = (char)vh::u64(t[2]); size_t st = vh::u64(t[3]);
+				VE a = eval(w, t[1]); CharT c = (CharT)vh::u64(t[2]); size_t st = vh::u64(t[3]);
 				size_t r = a.v.find_first(c, st);
 				printf("n %zu\n", r);
-				size_t e = std::string_view(a.ref).find(c, st);
+				size_t e = SV(a.ref).find(c, st);
 				if(r != e) vh::oracle("refstr", "find_first gives %zu, reference %zu", r, e);
 			} else if(o == "ffo") {
 				VE a = eval(w, t[1]), b = eval(w, t[2]); size_t st = vh::u64(t[3]);
 				size_t r = a.v.find_first_of(b.v, st);
 				printf("n %zu\n", r);
-				size_t e = std::string_view(a.ref).find_first_of(std::string_view(b.ref), st);
+				size_t e = SV(a.ref).find_first_of(SV(b.ref), st);
 				if(r != e) vh::oracle("refstr", "find_first_of gives %zu, reference %zu", r, e);
 			} else if(o == "fl") {
-				VE a = eval(w, t[1]); char c = (char)vh::u64(t[2]);
+				VE a = eval(w, t[1]); CharT c = (CharT)vh::u64(t[2]);
 				size_t r = a.v.find_last(c);
 				printf("n %zu\n", r);
-				size_t e = std::string_view(a.ref).rfind(c);
+				size_t e = SV(a.ref).rfind(c);
 				if(r != e) vh::oracle("refstr", "find_last gives %zu, reference %zu", r, e);
 			} else if(o == "sub") {
 				VE a = eval(w, t[1]); size_t from = vh::u64(t[2]), size = vh::u64(t[3]);
@@ -226,11 +238,11 @@ static void run_lines(const vh::Lines &ls) {
 				if(!inside) {
 					vh::oracle("substr-bounds", "sub_string(%zu, %zu) of a view of size %zu returned a view instead of stopping", from, size, a.ref.size());
 					printf("w bad\n");
-					w.views.push_back(FV{}); w.vref.push_back("");
+					w.views.push_back(FV{}); w.vref.push_back(SS());
 				} else {
 					if(!r.data()) printf("w null\n"); else printf("w %zu %s\n", r.size(), hex(r.data(), r.size()).c_str());
-					std::string e = a.ref.substr(from, size);
-					if(r.size() != e.size() || (r.size() && memcmp(r.data(), e.data(), e.size())))
+					SS e = a.ref.substr(from, size);
+					if(r.size() != e.size() || !same(r.data(), e.data(), e.size()))
 						vh::oracle("refstr", "sub_string(%zu, %zu) differs from the reference", from, size);
 					w.views.push_back(r); w.vref.push_back(e);
 				}
@@ -238,15 +250,17 @@ static void run_lines(const vh::Lines &ls) {
 				VE a = eval(w, t[1]), b = eval(w, t[2]);
 				bool r = o == "sw" ? a.v.starts_with(b.v) : a.v.ends_with(b.v);
 				printf("b %d\n", (int)r);
-				bool e = o == "sw" ? std::string_view(a.ref).starts_with(b.ref) : std::string_view(a.ref).ends_with(b.ref);
+				bool e = o == "sw" ? SV(a.ref).starts_with(b.ref) : SV(a.ref).ends_with(b.ref);
 				if(r != e) vh::oracle("refstr", "%s gives %d, reference %d", o == "sw" ? "starts_with" : "ends_with", (int)r, (int)e);
 			} else if(o == "num") {
+				if constexpr(std::is_same_v<CharT, char>) {
 				VE a = eval(w, t[2]);
 				const std::string &ty = t[1];
 				if(ty == "i8") do_num<int8_t>(a.v, a.ref); else if(ty == "i16") do_num<int16_t>(a.v, a.ref);
 				else if(ty == "i32") do_num<int32_t>(a.v, a.ref); else if(ty == "i64") do_num<int64_t>(a.v, a.ref);
 				else if(ty == "u8") do_num<uint8_t>(a.v, a.ref); else if(ty == "u16") do_num<uint16_t>(a.v, a.ref);
-				else if(ty == "u32") do_num<uint32_t>(a.v, a.ref); else do_num<uint64_t>(a.v, a.ref);
+				else if(ty == "u32") do_num<uint32_t>(a.v, a.ref); else do_num_u64(a.v, a.ref);
+				} else printf("?? num\n");
 			} else if(o == "hv") {
 				VE a = eval(w, t[1]);
 				unsigned h = frg::hash<FV>{}(a.v);
@@ -256,20 +270,20 @@ static void run_lines(const vh::Lines &ls) {
 				Buf &b = g_bufs.at(vh::u64(t[1])); size_t off = vh::u64(t[2]);
 				size_t r = frg::generic_strlen(b.p + off);
 				printf("n %zu\n", r);
-				size_t e = b.bytes.substr(off).find('\0');
+				size_t e = b.bytes.substr(off).find(CharT(0));
 				if(r != e) vh::oracle("refstr", "generic_strlen gives %zu, reference %zu", r, e);
 			} else if(o == "nlen") {
 				Buf &b = g_bufs.at(vh::u64(t[1])); size_t off = vh::u64(t[2]), mx = vh::u64(t[3]);
 				size_t r = frg::generic_strnlen(b.p + off, mx);
 				printf("n %zu\n", r);
-				size_t e = b.bytes.substr(off).find('\0'); if(e == std::string::npos || e > mx) e = mx;
+				size_t e = b.bytes.substr(off).find(CharT(0)); if(e == SS::npos || e > mx) e = mx;
 				if(r != e) vh::oracle("refstr", "generic_strnlen gives %zu, reference %zu", r, e);
 			} else if(o == "snew") {
-				new_str(w, new FS(), "", "basic_string()");
+				new_str(w, new FS(), SS(), "basic_string()");
 				if(w.strs.back()->data()) vh::oracle("refstr", "default-constructed string owns a buffer");
 			} else if(o == "scs") {
 				Buf &b = g_bufs.at(vh::u64(t[1])); size_t off = vh::u64(t[2]);
-				std::string r = b.bytes.substr(off); r = r.substr(0, r.find('\0'));
+				SS r = b.bytes.substr(off); r = r.substr(0, r.find(CharT(0)));
 				new_str(w, new FS(b.p + off), r, "basic_string(const char*)");
 			} else if(o == "spl") {
 				Buf &b = g_bufs.at(vh::u64(t[1])); size_t off = vh::u64(t[2]), len = vh::u64(t[3]);
@@ -278,15 +292,15 @@ static void run_lines(const vh::Lines &ls) {
 				VE a = eval(w, t[1]);
 				new_str(w, new FS(a.v), a.ref, "basic_string(view)");
 			} else if(o == "sfill") {
-				size_t n = vh::u64(t[1]); char c = (char)vh::u64(t[2]);
-				new_str(w, new FS(n, c), std::string(n, c), "basic_string(size, c)");
+				size_t n = vh::u64(t[1]); CharT c = (CharT)vh::u64(t[2]);
+				new_str(w, new FS(n, c), SS(n, c), "basic_string(size, c)");
 			} else if(o == "scopy") {
 				size_t k = vh::u64(t[1]);
 				new_str(w, new FS(*w.strs.at(k)), *w.ref.at(k), "copy constructor");
 			} else if(o == "sassign") {
 				size_t d = vh::u64(t[1]), s = vh::u64(t[2]);
 				*w.strs.at(d) = *w.strs.at(s);
-				w.ref[d] = std::string(*w.ref.at(s));
+				w.ref[d] = SS(*w.ref.at(s));
 				printf("u\n"); print_str(w, d); check_str(w, d, "operator=");
 				if(d != s) check_str(w, s, "operator= (source)");
 			} else if(o == "sresize") {
@@ -300,7 +314,7 @@ static void run_lines(const vh::Lines &ls) {
 				new_str(w, new FS(*w.strs.at(k) + a.v), *w.ref.at(k) + a.ref, "operator+(view)");
 				check_str(w, k, "operator+(view) (left operand)");
 			} else if(o == "splusc") {
-				size_t k = vh::u64(t[1]); char c = (char)vh::u64(t[2]);
+				size_t k = vh::u64(t[1]); CharT c = (CharT)vh::u64(t[2]);
 				new_str(w, new FS(*w.strs.at(k) + c), *w.ref.at(k) + c, "operator+(char)");
 				check_str(w, k, "operator+(char) (left operand)");
 			} else if(o == "sappv") {
@@ -309,7 +323,7 @@ static void run_lines(const vh::Lines &ls) {
 				*w.ref[k] += a.ref;
 				printf("u\n"); print_str(w, k); check_str(w, k, "operator+=(view)");
 			} else if(o == "sappc" || o == "spush") {
-				size_t k = vh::u64(t[1]); char c = (char)vh::u64(t[2]);
+				size_t k = vh::u64(t[1]); CharT c = (CharT)vh::u64(t[2]);
 				if(o == "sappc") *w.strs.at(k) += c; else w.strs.at(k)->push_back(c);
 				w.ref[k]->push_back(c);
 				printf("u\n"); print_str(w, k); check_str(w, k, o == "sappc" ? "operator+=(char)" : "push_back");
@@ -322,19 +336,21 @@ static void run_lines(const vh::Lines &ls) {
 				if(r != want) vh::oracle("refstr", "compare gives %d, reference %d", r, want);
 				if(e != (*w.ref[a] == *w.ref[b])) vh::oracle("refstr", "operator== (strings) gives %d, reference %d", (int)e, (int)(*w.ref[a] == *w.ref[b]));
 			} else if(o == "scmpc") {
+				if constexpr(std::is_same_v<CharT, char>) {
 				size_t a = vh::u64(t[1]); Buf &b = g_bufs.at(vh::u64(t[2])); size_t off = vh::u64(t[3]);
 				int r = w.strs.at(a)->compare(b.p + off);
 				bool e = *w.strs[a] == (const char *)(b.p + off);
 				printf("i %d\n", r);
-				std::string cs = b.bytes.substr(off); cs = cs.substr(0, cs.find('\0'));
+				SS cs = b.bytes.substr(off); cs = cs.substr(0, cs.find(CharT(0)));
 				int want = ref_compare(*w.ref[a], cs);
 				if(r != want) vh::oracle("refstr", "compare(const char*) gives %d, reference %d", r, want);
 				if(e != (*w.ref[a] == cs)) vh::oracle("refstr", "operator==(const char*) gives %d, reference %d", (int)e, (int)(*w.ref[a] == cs));
+				} else printf("?? scmpc\n");
 			} else if(o == "ssw" || o == "sew") {
 				size_t k = vh::u64(t[1]); VE a = eval(w, t[2]);
 				bool r = o == "ssw" ? w.strs.at(k)->starts_with(a.v) : w.strs.at(k)->ends_with(a.v);
 				printf("b %d\n", (int)r);
-				bool e = o == "ssw" ? std::string_view(*w.ref[k]).starts_with(a.ref) : std::string_view(*w.ref[k]).ends_with(a.ref);
+				bool e = o == "ssw" ? SV(*w.ref[k]).starts_with(a.ref) : SV(*w.ref[k]).ends_with(a.ref);
 				if(r != e) vh::oracle("refstr", "string %s gives %d, reference %d", o == "ssw" ? "starts_with" : "ends_with", (int)r, (int)e);
 			} else if(o == "hs") {
 				size_t k = vh::u64(t[1]);
@@ -345,10 +361,10 @@ static void run_lines(const vh::Lines &ls) {
 				if(h != hv) vh::oracle("hash", "hash<basic_string> = %u but hash<basic_string_view> of the same text = %u", h, hv);
 			} else if(o == "sdetach") {
 				size_t k = vh::u64(t[1]);
-				char *p = w.strs.at(k)->data();
+				CharT *p = w.strs.at(k)->data();
 				w.strs[k]->detach();
 				LogAlloc{}.free(p);                     // the caller owns the buffer now
-				w.ref[k] = std::string();
+				w.ref[k] = SS();
 				printf("u\n"); print_str(w, k); check_str(w, k, "detach");
 			} else if(o == "sswap") {
 				size_t a = vh::u64(t[1]), b = vh::u64(t[2]);
@@ -373,6 +389,18 @@ static void run_lines(const vh::Lines &ls) {
 		printf("closed %d\n", (int)(vh::g_alloc.blocks.empty() && vh::g_oracle_count == before));
 		g_evs.clear();
 	}
+}
+
+};   // struct H
+
+static void body(const vh::Lines &ls0) {
+	vh::Lines ls = ls0;
+	std::string ct = "1";
+	if(!ls.empty()) { auto t = vh::split(ls[0]); if(t.size() == 2 && t[0] == "char") { ct = t[1]; ls.erase(ls.begin()); } }
+	if(ct == "2") H<char16_t>::body(ls);
+	else if(ct == "4") H<char32_t>::body(ls);
+	else if(ct == "w") H<wchar_t>::body(ls);
+	else H<char>::body(ls);
 }
 
 int main() { return vh::run(body); }
